@@ -392,6 +392,8 @@ class TypeMap:
         name = t.name
         if name in ("bool", "_Bool"):
             return "_Bool"
+        if name in ("std::strong_ordering", "strong_ordering") and not t.args:
+            return "int"  # -1 less, 0 equal/equivalent, 1 greater
         words = name.split(" ")
         if all(w in BUILTIN_WORDS for w in words):
             if name == "auto":
@@ -426,6 +428,13 @@ class TypeMap:
             if last == "__normal_iterator":
                 return self.c(a0)  # already T*
             return self.c(a0) + "*"
+        if last in ("_Node_iterator", "_Node_const_iterator", "_Node_iterator_base", "_Rb_tree_const_iterator") and t.args:
+            # iterators of std::unordered_set / std::set (vf_set model: pointer into the key array)
+            return self.c(t.args[0]) + "*"
+        if last == "reverse_iterator" and len(t.args) == 1:
+            # std::reverse_iterator<It>: the base iterator `current` (a pointer); *r is current[-1], ++r is --current
+            # (libmap.operator_call renders the operators accordingly; rbegin() = end(), rend() = begin())
+            return self.c(t.args[0])
         if last in ("iterator", "const_iterator", "reverse_iterator", "const_reverse_iterator") and "::" in name:
             # std::vector<T>::iterator printed unsugared
             m = re.match(r"(.*)<(.*)>::(const_)?iterator$", name)
@@ -462,6 +471,7 @@ class TypeMap:
             a, b = self.c(t.args[0]), self.c(t.args[1])
             tg = self.tag(a) + "__" + self.tag(b)
             self.map_insts.setdefault(tg, (a, b))
+            self.pair_insts.setdefault(tg, (a, b))  # the map model stores entries of this pair type
             return "struct vf_map_" + tg
         if last in ("set", "unordered_set", "flat_set") and t.args:
             a = self.c(t.args[0])
